@@ -121,7 +121,7 @@ type c19Sent struct {
 	proto string
 }
 
-// c19Send fires one GET with a marker header and gives up after 8 s (a request blocked on a dead
+// c19Send fires one GET with a marker header and gives up after 15 s (a request blocked on a dead
 // dump queue never returns by itself).
 func c19Send(c *Client, url, marker string) c19Sent {
 	ch := make(chan c19Sent, 1)
@@ -139,8 +139,8 @@ func c19Send(c *Client, url, marker string) c19Sent {
 	select {
 	case s := <-ch:
 		return s
-	case <-time.After(8 * time.Second):
-		return c19Sent{hung: true, err: fmt.Errorf("request %q did not return within 8 s", marker)}
+	case <-time.After(15 * time.Second):
+		return c19Sent{hung: true, err: fmt.Errorf("request %q did not return within 15 s", marker)}
 	}
 }
 
@@ -259,8 +259,8 @@ func TestVerif_C19_life(t *testing.T) {
 							m1, m0 := mk(), mk()
 							r1 := c19Send(cc, url, m1)
 							r0 := c19Send(c, url, m0)
-							ok1 := b1.waitFor(m1, 2*time.Second)
-							ok0 := b0.waitFor(m0, 2*time.Second)
+							ok1 := b1.waitFor(m1, 5*time.Second)
+							ok0 := b0.waitFor(m0, 5*time.Second)
 							time.Sleep(20 * time.Millisecond)
 							obs(id+"/each-dumps-to-its-own-writer", r1.err == nil && r0.err == nil && ok1 && ok0 && !strings.Contains(b0.String(), m1) && !strings.Contains(b1.String(), m0),
 								fmt.Sprintf("copy's request err=%v in its writer=%v in the original's=%v; original's request err=%v in its writer=%v in the copy's=%v",
@@ -278,7 +278,7 @@ func TestVerif_C19_life(t *testing.T) {
 							for i := 0; i < 8; i++ {
 								m := mk()
 								r := c19Send(on, url, m)
-								got := r.err == nil && bon.waitFor(m, 2*time.Second)
+								got := r.err == nil && bon.waitFor(m, 5*time.Second)
 								if !got {
 									allOK = false
 									detail = fmt.Sprintf("request %d of the side that still dumps: err=%v hung=%v dumped=%v", i+1, r.err, r.hung, strings.Contains(bon.String(), m))
